@@ -247,7 +247,7 @@ func (g *pgen) rowCount() string {
 	case 0:
 		return g.expr(1, false)
 	case 1:
-		return pick(g.r, []string{"1.5", "'s'", "-1", "n", "0x10", "(3)", "1E3", "5E0", "1e3", "1.0E3", "2E+1", "0x1E"})
+		return pick(g.r, []string{"1.5", "'s'", "-1", "n", "0x10", "(3)", "1E3", "5E0", "1e3", "1.0E3", "2E+1", "0x1E", "(n)", "((10))", "(n + 1)", "0xbeef", "0XE", "0xe0", "(2.5)", "1+2", "(3) + 1"})
 	default:
 		return pick(g.r, []string{"1", "2", "3", "10", "0", "007", "0x1f", "18446744073709551615", "18446744073709551616", "99999999999999999999"})
 	}
@@ -349,11 +349,11 @@ func (g *pgen) operator(depth, joinDepth int) string {
 		}
 		if g.r.chance(1, 2) {
 			s += g.sep() + "with" + g.osep() + "(" + g.osep() + g.list(1+g.r.intn(2), func() string {
-				v := pick(g.r, []string{"'My Title'", "stacked", "1", "a.b", "\"x\""})
+				v := pick(g.r, []string{"'My Title'", "stacked", "1", "a.b", "\"x\"", "-1", "-lo", "+(100)", "-f(1)", "a + 1", "strcat('a', b)", "(x)", "hidden", "m['k']", "not(a)", "1.5e3", "0x1e"})
 				if g.hostile {
 					v = pick(g.r, []string{g.str(), g.name(), g.number()})
 				}
-				return pick(g.r, []string{"title", "kind", "xtitle", g.name()}) + g.osep() + "=" + g.osep() + v
+				return pick(g.r, []string{"title", "kind", "xtitle", "legend", "ymin", "ysplit", g.name()}) + g.osep() + "=" + g.osep() + v
 			}) + g.osep() + ")"
 		}
 		return s
@@ -690,7 +690,9 @@ func init() {
 	families["walk-mut"] = func(r *rng, n int, emit emitFn) {
 		g := &pgen{r: r, noLayout: true}
 		dangling := []string{"T | where a + * b", "T | where a == - * 2", "T | where a or and b", "T | where a - / b", "T | join (U) on $left.a == * $right.b",
-			"T | extend x = a + * b, c", "T | sort by a + * b desc", "T | summarize count() by a or and b", "T | where f(a + * b)", "T | where a in (b + * c)", "T | top 3 by a < * b", "T | where (a and == b)"}
+			"T | extend x = a + * b, c", "T | sort by a + * b desc", "T | summarize count() by a or and b", "T | where f(a + * b)", "T | where a in (b + * c)", "T | top 3 by a < * b", "T | where (a and == b)",
+			"T | project a + b", "T | project f(x), y", "T | project a.b, c", "T | project m['k']", "T | project -a", "T | project (a)", "T | summarize n = by k", "T | extend = 1",
+			"T | render", "T | render 'barchart'", "T | join (U) on", "T | take (n)", "T | take ((10))", "T | top (n + 1) by x", "`let` | count", "T | where a.`b c` == 1"}
 		for i := 0; i < n; i++ {
 			var src string
 			if r.chance(1, 6) {
@@ -843,7 +845,7 @@ var pipeArgs = map[string][]string{
 	"top":       {"top 2 by b", "top 1 by a asc", "top 3 by a desc nulls first", "top 0 by b", "top 2 by b nulls first", "top 2 by a asc nulls last", "top 18446744073709551616 by a"},
 	"count":     {"count"},
 	"as":        {"as X", "as `my name`", "as a", "as __subquery1", "as __subquery2", "as X"},
-	"render":    {"render table", "render barchart with (title = 'x')", "render piechart with (kind = stacked, a = 1)"},
+	"render":    {"render table", "render barchart with (title = 'x')", "render piechart with (kind = stacked, a = 1)", "render linechart with (ymin = -lo, legend = hidden, t = strcat('a', b))"},
 }
 
 var pipeKinds = []string{"where", "project", "extend", "summarize", "sort", "take", "top", "count", "as", "render"}
